@@ -431,7 +431,7 @@ func (e *Engine) writeRange(st *State, elem types.Type, obj, start, n *Term, rea
 		name := elemHeapName(elem, lf.path)
 		h := e.heap(st, name, heapSort(lf.sort, true))
 		oldRow := Select(h, obj)
-		if n.IsConst() && n.N.IsInt64() && n.N.Int64() <= 8 {
+		if n.IsConst() && n.N.IsInt64() && n.N.Int64() <= 32 {
 			row := oldRow
 			for k := int64(0); k < n.N.Int64(); k++ {
 				row = Store(row, Add(start, Num(k)), read(li, Num(k)))
